@@ -8,6 +8,10 @@
      (iii) a member of S that has another member beneath it is such a path     [interior_class]
    and the extract ExtractItems(leaves of S, WithAppendKeyFields) is a plain valid object,
    then the field set of the extract has exactly the members of S.  [extract_field_set]
+   Since the repair of the extracting walker (finding F27: it now descends into a selected
+   entry or member with the selection beneath it) (i) follows from the other hypotheses,
+   the extract being plain and valid  [plain_extract_leaves_are_leaves]; the theorem without
+   (i) is [extract_field_set_plain].
    (ii) and (iii) speak of S and the schema only; the field set of every plain valid
    configuration satisfies them [field_set_closed], and so does every subset of such a
    set as far as (iii) is concerned. *)
@@ -225,9 +229,6 @@ Section SetEq.
   Hypothesis HS : ps_ok Sr = true.
   Hypothesis Hpres : members_present s tr live Sr.
   Hypothesis Hsync : key_sync s tr live Sr.
-  Hypothesis Hleaf : leaves_are_leaves s tr live Sr.
-  Hypothesis Hclosed : prefix_closed s tr Sr.
-  Hypothesis Hcls : interior_class s tr Sr.
 
   Let Htr : R tr := proj1 Hx.
   Let Hwl : wf_value live = true := proj1 (proj2 Hx).
@@ -241,6 +242,133 @@ Section SetEq.
     intros p Hp Hh. pose proof (ps_leaves_spec Sr HS) as [_ Hlv]. unfold Sl in Hh. rewrite (Hlv p Hp) in Hh.
     apply andb_true_iff in Hh. apply Hh.
   Qed.
+
+  (* ---------- (i) follows from the extract being plain (after the F27 repair) ---------- *)
+
+  (* nothing of Sr lies strictly beneath a leaf of Sr *)
+  Lemma leaf_no_longer : forall t u, wf_path t = true -> wf_path u = true ->
+    ps_has t Sl = true -> ps_has u Sr = true -> is_prefix t u = true ->
+    List.length t < List.length u -> False.
+  Proof.
+    intros t u Ht Hu Hlf Hh Hpre Hlen.
+    pose proof (ps_leaves_spec Sr HS) as [_ Hlv]. unfold Sl in Hlf. rewrite (Hlv t Ht) in Hlf.
+    apply andb_true_iff in Hlf. destruct Hlf as [_ Hnone]. apply negb_true_iff in Hnone.
+    rewrite (ps_has_elems Sr u HS Hu) in Hh. unfold pmem in Hh. apply existsb_exists in Hh.
+    destruct Hh as (u0 & Hin & Heq).
+    pose proof (ps_elems_wf Sr HS) as Hall. rewrite forallb_forall in Hall.
+    assert (Hpp : proper_prefix t u0 = true).
+    { rewrite <- (proper_prefix_cong t u u0 Ht Hu (Hall u0 Hin) Heq). unfold proper_prefix.
+      rewrite Hpre. cbn [andb]. apply negb_true_iff. apply Nat.eqb_neq. lia. }
+    assert (existsb (fun q0 => proper_prefix t q0) (ps_elems Sr) = true).
+    { apply existsb_exists. exists u0. auto. }
+    congruence.
+  Qed.
+
+  (* The selection ExtractItems walks with holds nothing strictly beneath a leaf of Sr that
+     designates a granular node of the object: the only candidates are the key fields of a
+     list member, and the record holds those with the member [key_sync]. *)
+  Lemma with_keys_nothing_beneath : forall fs t ft c q, wf_path t = true -> ps_has t Sl = true ->
+    resolve_path s tr live t = Some (RNode ft c) -> granular s ft c ->
+    wf_path q = true -> q <> [] -> ps_has (t ++ q) (with_keys fs Sl) = false.
+  Proof.
+    intros fs t ft c q Ht Hlf Eres Hg Hq Hqne.
+    destruct (ps_has (t ++ q) (with_keys fs Sl)) eqn:E; [|reflexivity]. exfalso.
+    assert (Hwtq : wf_path (t ++ q) = true) by (apply wf_path_app; auto).
+    assert (Htqne : t ++ q <> []) by (destruct t; [simpl; exact Hqne|discriminate]).
+    assert (Hlq : List.length t < List.length (t ++ q)).
+    { rewrite app_length. destruct q; [congruence|simpl; lia]. }
+    destruct (with_keys_mem fs Sl (t ++ q) HSl Hwtq Htqne E)
+      as [Hm|(p & i & fl & k & Hp & Hm & Hn & Hk & Heq)].
+    - apply (leaf_no_longer t (t ++ q) Ht Hwtq Hlf (leaf_member _ Hwtq Hm)
+               (is_prefix_app t q Ht) Hlq).
+    - pose proof (leaf_member p Hp Hm) as HpS.
+      apply nth_error_split in Hn. destruct Hn as (pre & rest & Ep & Hlen).
+      assert (Hfi : firstn i p = pre) by (subst p i; apply firstn_app_len).
+      rewrite Hfi in Heq.
+      assert (HwP : wf_path (pre ++ [PEKey fl; PEField k]) = true).
+      { subst p. apply wf_path_app in Hp. destruct Hp as [H1 H2]. apply wf_path_cons in H2.
+        apply wf_path_app. split; [exact H1|]. apply wf_path_cons. split; [tauto|reflexivity]. }
+      assert (Hwitem : wf_path (pre ++ [PEKey fl]) = true).
+      { apply wf_path_app in HwP. destruct HwP as [H1 H2]. apply wf_path_cons in H2.
+        apply wf_path_app. split; [exact H1|]. apply wf_path_cons. split; [tauto|reflexivity]. }
+      pose proof (patheqb_length _ _ Heq) as Hlt. rewrite !app_length in Hlt. cbn [List.length] in Hlt.
+      assert (Hql : 1 <= List.length q) by (destruct q; [congruence|simpl; lia]).
+      set (j := List.length t) in *.
+      (* t is, up to Equals, a prefix of p *)
+      assert (Hfj : patheqb t (firstn j p) = true).
+      { assert (E1 : firstn j (pre ++ [PEKey fl; PEField k]) = firstn j p).
+        { subst p.
+          replace (pre ++ [PEKey fl; PEField k]) with ((pre ++ [PEKey fl]) ++ [PEField k])
+            by (rewrite <- app_assoc; reflexivity).
+          replace (pre ++ PEKey fl :: rest) with ((pre ++ [PEKey fl]) ++ rest)
+            by (rewrite <- app_assoc; reflexivity).
+          rewrite !(firstn_app j (pre ++ [PEKey fl])). rewrite app_length. cbn [List.length].
+          replace (j - (List.length pre + 1)) with 0 by lia. cbn [firstn]. reflexivity. }
+        rewrite <- E1. rewrite <- (firstn_app_len _ t q) at 1. fold j.
+        apply patheqb_firstn. exact Heq. }
+      assert (Hwfj : wf_path (firstn j p) = true) by (apply wf_path_firstn; exact Hp).
+      assert (Hpre : is_prefix t p = true).
+      { apply (is_prefix_trans t (firstn j p) p Ht Hwfj Hp).
+        - apply (MergeRest.is_prefix_of_patheqb t (firstn j p) Hwfj Ht).
+          apply patheqb_sym_true; auto.
+        - apply is_prefix_firstn. exact Hp. }
+      destruct (Nat.lt_ge_cases j (List.length p)) as [Hjl|Hjl].
+      + apply (leaf_no_longer t p Ht Hp Hlf HpS Hpre Hjl).
+      + (* t is the member itself: its key fields are in the record *)
+        assert (Hpl : List.length p = List.length pre + 1).
+        { pose proof (is_prefix_length t p Hpre) as H0. fold j in H0.
+          assert (List.length p = List.length pre + S (List.length rest))
+            by (rewrite Ep, app_length; reflexivity). lia. }
+        assert (Hrest : rest = []).
+        { assert (List.length p = List.length pre + S (List.length rest))
+            by (rewrite Ep, app_length; reflexivity).
+          destruct rest; [reflexivity|simpl in *; lia]. }
+        subst rest.
+        rewrite firstn_all2 in Hfj by lia.
+        rewrite (resolve_patheqb s R Hok t p Hfj Ht Hp live tr Htr Hwl), Ep in Eres.
+        destruct (item_key_explicit s R Hok Hfam Hnd pre fl k live tr true ft c Htr Hwl Hcl Hwitem Eres Hk)
+          as (m & val & -> & Eg).
+        assert (Ek : exists tm, kind_of s ft (VMap m) = KMap tm m).
+        { unfold granular in Hg. destruct (kind_of s ft (VMap m)) as [|tm m'|tl l'|] eqn:Ek; try contradiction.
+          - destruct (kind_map_inv _ _ _ _ _ Ek) as (_ & _ & _ & Hv & _). inversion Hv; subst m'.
+            exists tm. reflexivity.
+          - destruct (kind_list_inv _ _ _ _ _ Ek) as (_ & _ & _ & Hv & _). discriminate. }
+        destruct Ek as (tm & Ek).
+        assert (Hpr : present s tr live (pre ++ [PEKey fl; PEField k]) = true).
+        { unfold present. rewrite app2, resolve_path_app, Eres.
+          rewrite (resolve_path_map _ _ _ _ _ _ _ Ek), Eg. reflexivity. }
+        pose proof (Hsync pre fl k HwP Hk Hpr) as Hks'. rewrite <- Ep, HpS in Hks'.
+        apply (leaf_no_longer t (pre ++ [PEKey fl; PEField k]) Ht HwP Hlf (eq_sym Hks')).
+        * rewrite app2, <- Ep.
+          apply (is_prefix_trans t p (p ++ [PEField k]) Ht Hp); auto.
+          -- apply wf_path_app. split; [exact Hp|reflexivity].
+          -- apply is_prefix_app. exact Hp.
+        * rewrite app_length. cbn [List.length]. fold j. lia.
+  Qed.
+
+  (* every leaf of the record designates a leaf of the object, when the extract is a plain
+     valid object: a granular node selected with nothing beneath it is extracted as null *)
+  Lemma plain_leaves_are_leaves : forall fs,
+    oky s tr (remove_items s true tr (with_keys fs Sl) live) -> leaves_are_leaves s tr live Sr.
+  Proof.
+    intros fs Hy t Ht Hlf. fold Sl in Hlf.
+    pose proof (leaf_member t Ht Hlf) as HtS.
+    pose proof (Hpres t Ht HtS) as Hpr. unfold present in Hpr.
+    destruct (resolve_path s tr live t) as [n|] eqn:Eres; [|discriminate].
+    destruct (okx_resolve t tr live n Hx Ht Eres) as (ft & c & -> & Hxc).
+    exists ft, c. split; [reflexivity|].
+    destruct (leafy_or_granular s ft c) as [Hl|Hg]; [exact Hl|].
+    apply (xt_selected_leafy s R Hok Hfam Hnd Hks t live tr (with_keys fs Sl) ft c Hx
+             (with_keys_ok fs Sl HSl) Hy Ht (has_nonnil _ _ HtS)).
+    - destruct (ps_union_spec Sl _ HSl (ps_of_paths_ok _ (key_extra_wf fs Sl HSl))) as [_ Hu].
+      unfold with_keys. rewrite (Hu t Ht), Hlf. reflexivity.
+    - intros q Hq Hqne. apply (with_keys_nothing_beneath fs t ft c q Ht Hlf Eres Hg Hq Hqne).
+    - exact Eres.
+  Qed.
+
+  Hypothesis Hleaf : leaves_are_leaves s tr live Sr.
+  Hypothesis Hclosed : prefix_closed s tr Sr.
+  Hypothesis Hcls : interior_class s tr Sr.
 
   (* what is needed of the selection *)
   Record tsel (T : pset) : Prop := mkTsel {
@@ -454,6 +582,43 @@ Proof.
   - destruct (ps_has (e :: p') Sr) eqn:Eh; [|reflexivity].
     rewrite (ext_fs_sup s R Hok Hfam Hnd Hks tr live Sr Hx HS Hleaf Hcls T HT Hy (e :: p') Hp ltac:(discriminate) Eh) in Em.
     discriminate.
+Qed.
+
+(* (i) is a consequence of the other hypotheses since the F27 repair of the extracting walker:
+   a leaf of the record that designates a granular node of the object is extracted as null
+   (nothing is selected beneath it), and the extract would not be plain. *)
+Theorem plain_extract_leaves_are_leaves : forall s R tr live Sr,
+  schema_ok s R -> family_refs s R -> keys_nodefault s R -> keys_scalar s R ->
+  R tr -> wf_value live = true -> conforms s tr true live = true -> dup_free s tr live = true ->
+  ps_ok Sr = true -> members_present s tr live Sr -> key_sync s tr live Sr ->
+  let ext := extract s tr true live (ps_leaves Sr) in
+  plain ext = true -> conforms s tr false ext = true ->
+  leaves_are_leaves s tr live Sr.
+Proof.
+  intros s R tr live Sr Hok Hfam Hnd Hks Htr Hwl Hcl Hdf HS Hpres Hsync ext Hpl Hcx.
+  assert (Hx : okx s R tr live) by (split; [exact Htr|split; [exact Hwl|split; [exact Hcl|exact Hdf]]]).
+  destruct (to_field_set_ok_family s R tr live Hok Htr Hfam Hwl Hcl) as (fs & Hfs & _).
+  pose proof (extract_with_keys s tr live (ps_leaves Sr) fs Hfs) as Eext. fold ext in Eext.
+  apply (plain_leaves_are_leaves s R Hok Hfam Hnd Hks tr live Sr Hx HS Hpres Hsync fs).
+  rewrite <- Eext. split; assumption.
+Qed.
+
+(* [extract_field_set] without (i) *)
+Theorem extract_field_set_plain : forall s R tr live Sr set0,
+  schema_ok s R -> family_refs s R -> keys_nodefault s R -> keys_scalar s R ->
+  R tr -> wf_value live = true -> conforms s tr true live = true -> dup_free s tr live = true ->
+  ps_ok Sr = true -> members_present s tr live Sr -> key_sync s tr live Sr ->
+  prefix_closed s tr Sr -> interior_class s tr Sr ->
+  let ext := extract s tr true live (ps_leaves Sr) in
+  plain ext = true -> conforms s tr false ext = true ->
+  to_field_set s tr ext = Some set0 ->
+  ps_equals set0 Sr = true.
+Proof.
+  intros s R tr live Sr set0 Hok Hfam Hnd Hks Htr Hwl Hcl Hdf HS Hpres Hsync Hclosed Hcls ext Hpl Hcx Hset0.
+  apply (extract_field_set s R tr live Sr set0 Hok Hfam Hnd Hks Htr Hwl Hcl Hdf HS Hpres Hsync
+           (plain_extract_leaves_are_leaves s R tr live Sr Hok Hfam Hnd Hks Htr Hwl Hcl Hdf HS Hpres Hsync
+              Hpl Hcx)
+           Hclosed Hcls Hpl Hcx Hset0).
 Qed.
 
 (* ================= field sets satisfy the two conditions on sets ================= *)
